@@ -791,7 +791,7 @@ def _spliceform_rule(chk, prog):
     `;xs` is one element of the tuple but any number of arguments of the call, so a shape match that does not look for
     splices recognises calls it must not touch."""
     rule = "C15-SPLICEFORM"
-    chk.rule(rule, "a compiler fast path that recognises a call by the length of its form leaves forms with a spliced operand alone")
+    chk.rule(rule, "a compiler fast path that recognises a call by the shape of its form leaves bracketed tuples and forms with a spliced operand alone")
     n = 0
     for fn in prog.tus["specials.c"].funcs.values():
         lens = [x for x in fn.nodes if x.k == "bin" and x.op in ("==", "!=") and any("janet_tuple_length" in y.macro_names() for y in x.walk())
@@ -803,8 +803,15 @@ def _spliceform_rule(chk, prog):
         n += 1
         chk.instance(rule)
         chk.analysed(fn)
-        if any("splice" in x.text() for x in fn.nodes if x.k in ("str", "call")):
-            chk.ok(rule, "%s: matches a call form by length and excludes spliced operands" % fn.name)
+        # a bracketed tuple [f a b] is a tuple constructor, not a call: the form is a call only without that flag
+        brk = any("JANET_TUPLE_FLAG_BRACKETCTOR" in x.macro_names() for x in fn.nodes)
+        if not brk:
+            chk.violation(rule, "specials.c", fn.name, "bracket-form", lens[0].loc,
+                          "%s recognises a call by the shape of the tuple but never looks at JANET_TUPLE_FLAG_BRACKETCTOR: a bracketed "
+                          "tuple [<=> nil x], which constructs a (truthy) tuple, is compiled as the nil test - (if [,= nil 1] :a :b) "
+                          "gives :b although the same tuple built by (tuple = nil 1) gives :a" % fn.name)
+        elif any("splice" in x.text() for x in fn.nodes if x.k in ("str", "call")):
+            chk.ok(rule, "%s: matches a call form by length, excludes bracketed tuples and spliced operands" % fn.name)
         else:
             chk.violation(rule, "specials.c", fn.name, "shape-match", lens[0].loc,
                           "%s recognises a call by `%s` and the function in front, and captures an operand, without looking for a `splice` "
